@@ -106,7 +106,7 @@ pub fn run_case<C: GenericConfig<D, F = F>>(seed: u64, case: u64, quick: bool, h
         6..=8 => rng.gen_range(60..200),
         _ => rng.gen_range(200..if quick { 300 } else { 700 }),
     };
-    let opts = GenOpts { n_ops, lookups: rng.gen_bool(0.35), hashing: rng.gen_bool(0.5), extension: rng.gen_bool(0.6), max_table_len: 120 };
+    let opts = GenOpts { n_ops, lookups: rng.gen_bool(0.35), hashing: rng.gen_bool(0.5), extension: rng.gen_bool(0.6), max_table_len: 120, only_base2: false };
     let (prog, base_inputs) = circ::gen_program(&mut rng, &bset, &opts);
     let sampled_cfg = rng.gen_bool(0.45);
     let config: CircuitConfig = if sampled_cfg { circ::gen_config(&mut rng, true) } else { circ::fast_config() };
